@@ -444,6 +444,10 @@ fn cli_mode(loaded: &[Arc<Loaded>], bin: &str, delay: u64, out: &mut impl Write)
         for l in f[3].split(',').filter(|x| !x.is_empty()) {
             let text = match l {
                 "ba" | "da" | "c" | "l" => l.to_string(),
+                // the same grammar / input loaded again through each loading command (the input is one line for `id`)
+                "g" => format!("g {}", gfile.display()),
+                "i" => format!("i {}", ifile.display()),
+                "id" => if cfg.input.contains('\n') { format!("i {}", ifile.display()) } else { format!("id {}", cfg.input) },
                 "r" => format!("r {}", cfg.rule),
                 x if x.starts_with('b') => format!("b {}", ld.names[x[1..].parse::<usize>().unwrap()]),
                 x if x.starts_with('d') => format!("d {}", ld.names[x[1..].parse::<usize>().unwrap()]),
